@@ -10,6 +10,7 @@ Local Open Scope list_scope.
 Section P4.
   Variable V : Type.
   Variable bin : binop -> V -> V -> V.
+  Variable un : unop -> V -> V.
   Variable falsy : V -> bool.
   Notation snode := (snode V).
   Notation pspec := (pspec V).
@@ -46,7 +47,7 @@ Section P4.
   (* supplying the same value for each path yields equal instances *)
   Theorem equiv_instance (n n' : snode) (pv : list (path * V)) :
     equiv n n' -> wf V (tree n) ->
-    inst_from_paths V bin (tree n') pv = inst_from_paths V bin (tree n) pv.
+    inst_from_paths V bin un (tree n') pv = inst_from_paths V bin un (tree n) pv.
   Proof. intros Q W. destruct (equiv_tree V n n' Q) as [s [Hi E]]. rewrite E. apply inst_from_paths_ren; assumption. Qed.
 
   (* ---------- pickle and database: the ModelTree itself is unchanged (order included) ---------- *)
